@@ -178,14 +178,28 @@ pub fn weights_of(recs: &[Rec]) -> Vec<Scalar> {
 /// every 64-byte draw from a transcript RNG that was rekeyed with a witness (the prover's RNG instances),
 /// as (rng instance id, reduced scalar)
 pub fn prover_draws(recs: &[Rec]) -> Vec<(u64, Scalar)> {
-    recs.iter()
-        .filter_map(|r| match &r.ev {
-            Ev::Draw { out } if out.len() == 64 && r.hist.iter().any(|e| matches!(e, Ev::Rekey { .. })) => {
-                Some((r.id, wide(out)))
-            },
-            _ => None,
-        })
-        .collect()
+    let mut ids: Vec<u64> = vec![];
+    for r in recs {
+        if matches!(r.ev, Ev::Draw { .. }) && r.hist.iter().any(|e| matches!(e, Ev::Rekey { .. })) && !ids.contains(&r.id) {
+            ids.push(r.id);
+        }
+    }
+    let mut v = vec![];
+    for id in ids {
+        let outs: Vec<&Vec<u8>> = recs.iter().filter(|r| r.id == id).filter_map(|r| match &r.ev { Ev::Draw { out } => Some(out), _ => None }).collect();
+        if outs.iter().all(|o| o.len() == 64) {
+            v.extend(outs.iter().map(|o| (id, wide(o))));
+        } else {
+            // code that draws in other portions: every 64-byte window of the output stream on 32-byte boundaries
+            let stream: Vec<u8> = outs.iter().flat_map(|o| o.iter().cloned()).collect();
+            let mut off = 0;
+            while off + 64 <= stream.len() {
+                v.push((id, wide(&stream[off..off + 64])));
+                off += 32;
+            }
+        }
+    }
+    v
 }
 
 /// nonces read back from the coordinates of an honest proof
